@@ -381,7 +381,7 @@ fn make_stream(rng: &mut Rng, resp: &[Vec<u8>]) -> (Vec<u8>, Vec<usize>) {
     let mut s = vec![];
     let mut bounds = vec![];
     for _ in 0..n {
-        s.extend_from_slice(rng.pick(resp));
+        { let e: &Vec<u8> = rng.pick(resp); s.extend_from_slice(e); }
         bounds.push(s.len());
     }
     match rng.below(8) {
@@ -499,7 +499,7 @@ fn run_session_case(ctx: &mut Ctx, rng: &mut Rng, resp: &[Vec<u8>], untagged: &[
         let n_un = rng.usize(6);
         let mut part = vec![];
         for _ in 0..n_un {
-            part.extend_from_slice(rng.pick(untagged));
+            { let e: &Vec<u8> = rng.pick(untagged); part.extend_from_slice(e); }
         }
         if rng.chance(1, 3) {
             part.extend(lookalikes(rng, &tag));
@@ -519,7 +519,7 @@ fn run_session_case(ctx: &mut Ctx, rng: &mut Rng, resp: &[Vec<u8>], untagged: &[
             let text = *rng.pick(&["", " done", " [READ-WRITE] ok", " [UIDNEXT 7]", " [ALERT] x y"]);
             part.extend_from_slice(format!("{} {}{}\r\n", tag, status, text).as_bytes());
             if rng.chance(1, 5) {
-                part.extend_from_slice(rng.pick(untagged)); // unsolicited data after the completion
+                { let e: &Vec<u8> = rng.pick(untagged); part.extend_from_slice(e); } // unsolicited data after the completion
             }
         }
         server.extend(part);
